@@ -454,3 +454,7 @@ Definition suite_C18 (inp obs : list tok) : verdict :=
           else malformed
       | _, _, _ => malformed end
   | _, _ => malformed end.
+
+(* the all-quiet observation: Ok, count 0, nothing changed anywhere (used by the non-vacuity example) *)
+Definition enc18_ok (o : obs18) : bool :=
+  (o_class o =? 0) && (o_count o =? 0) && (o_ext o =? 0) && is_nil (o_changed o) && is_nil (o_dirty o).
